@@ -78,6 +78,9 @@ func (p *publisher) publishUpdates(reqs requests) {
 	batchedUpdates := make(map[uint64]*pb.KVList)
 	for _, req := range reqs {
 		for _, e := range req.Entries {
+			if e.notACommit {
+				continue
+			}
 			// Match on the user key: e.Key carries the 8-byte version suffix, whose bytes must not
 			// take part in prefix matching (a pattern one byte longer than the key would match).
 			ids := p.indexer.Get(y.ParseKey(e.Key))
